@@ -6,6 +6,7 @@ import (
 	"fmt"
 	"sort"
 	"strings"
+	"time"
 
 	"google.golang.org/grpc/balancer"
 	"google.golang.org/grpc/connectivity"
@@ -491,6 +492,12 @@ func tuples(n, k int) [][]int {
 
 // runPairs explores every pair (and, with triples, every triple) of operations of every prepared state.
 func runPairs(c *vsched.RunCtx, race bool) {
+	// the tuples get at most 40% of the time left to the check, so that on an overloaded machine the
+	// other explorations of the same check are not starved (a cap is reported as such)
+	deadline := c.Deadline
+	if !deadline.IsZero() && !race {
+		deadline = time.Now().Add(time.Until(c.Deadline) * 2 / 5)
+	}
 	pre := 2
 	if c.Thorough() {
 		pre = 3
@@ -633,10 +640,10 @@ func runPairs(c *vsched.RunCtx, race bool) {
 			// race check the races are the verdict; in a property check they select the accesses that
 			// become scheduling points of a second exploration, because a program with a data race has
 			// behaviours that interleavings at synchronisation operations alone never show.
-			res := vsched.Explore(vsched.ExploreOpts{Name: "pairs", Config: cfgName, PreemptBound: pre, DevBound: 1, Race: true, Deadline: c.Deadline}, body)
+			res := vsched.Explore(vsched.ExploreOpts{Name: "pairs", Config: cfgName, PreemptBound: pre, DevBound: 1, Race: true, Deadline: deadline}, body)
 			c.Add(res)
 			if !race && len(res.RaceSites) > 0 {
-				res2 := vsched.Explore(vsched.ExploreOpts{Name: "pairs+racy", Config: cfgName, PreemptBound: 2, DevBound: 1, Race: true, YieldSites: res.RaceSites, Deadline: c.Deadline}, body)
+				res2 := vsched.Explore(vsched.ExploreOpts{Name: "pairs+racy", Config: cfgName, PreemptBound: 2, DevBound: 1, Race: true, YieldSites: res.RaceSites, Deadline: deadline}, body)
 				c.Add(res2)
 			}
 		}
